@@ -83,9 +83,18 @@ class C04(Property):
             out.append("pc " + " ".join(toks))
         return out
 
+    def model_line(self, line, impl_out):
+        if line.startswith("pc "):
+            # the seal log is a value of the real run; it is handed to the model side, which echoes it, so that the oracle (which
+            # sees the compared output) can check it
+            ops, outs = line.split()[1:], impl_out.split()
+            if len(ops) == len(outs):
+                return "pc " + " ".join(("%s.%s" % (o, r[1:]) if o.startswith("Z.") and r.startswith("z") and len(r) > 1 else o) for o, r in zip(ops, outs))
+        return line
+
     def canon_impl(self, line, out):
         if line.startswith("pc "):
-            return re.sub(r"(^| )z[0-9a-f/,]*", r"\1z", out)
+            return out
         if line.startswith("core "):
             # key material fingerprints are not comparable with symbolic key names: keep the nonces
             return " ".join(re.sub(r"(^z|,)[0-9a-f]{16}/", r"\1K/", x) if x.startswith("z") else x for x in out.split())
